@@ -339,3 +339,62 @@ pub fn migrate_native(old_challenged: bool, old_pending: bool, v4: bool) -> u32 
         2
     }
 }
+
+fn set_state(conn: &mut Connection, state: u8) {
+    match state {
+        0 => {}
+        1 => conn.state = State::Established,
+        2 => conn.state = State::Closed(state::Closed { reason: Close::Application(frame::ApplicationClose { error_code: VarInt::from_u32(1), reason: Bytes::new() }) }),
+        3 => conn.state = State::Draining,
+        _ => conn.state = State::Drained,
+    }
+}
+
+/// Native replay body for the E2 query `e2_close_inner` (C08): a local close stops every timer and
+/// arms only the close timer; closing again neither re-arms it nor changes the state.
+pub fn close_inner_native(state: u8) -> u32 {
+    let mut conn = mk_conn(false, false);
+    set_state(&mut conn, state);
+    let t0 = crate::verif::mk_instant(51, 0).unwrap();
+    let t1 = crate::verif::mk_instant(52, 0).unwrap();
+    let was_closed = conn.state.is_closed();
+    conn.timers.set(Timer::Idle, t1);
+    conn.timers.set(Timer::KeepAlive, t1);
+    if was_closed {
+        conn.timers.set(Timer::Close, t1);
+    }
+    let reason = || Close::Application(frame::ApplicationClose { error_code: VarInt::from_u32(7), reason: Bytes::new() });
+    conn.close_inner(t0, reason());
+    assert!(conn.state.is_closed());
+    if was_closed {
+        assert!(conn.timers.get(Timer::Close) == Some(t1), "closing a closed connection re-armed the close timer");
+        return 2;
+    }
+    assert!(conn.close, "CONNECTION_CLOSE not scheduled");
+    let armed = conn.timers.get(Timer::Close).expect("close timer not armed after close");
+    assert!(armed > t0);
+    for &t in &Timer::VALUES {
+        assert!(t == Timer::Close || conn.timers.get(t).is_none(), "timer still armed after close");
+    }
+    // closing again, later: nothing moves
+    conn.close_inner(t1, reason());
+    assert!(conn.timers.get(Timer::Close) == Some(armed), "second close moved the close timer");
+    1
+}
+
+/// Native replay body for the E2 query `e2_kill` (C08).
+pub fn kill_native(state: u8) -> u32 {
+    let mut conn = mk_conn(false, false);
+    set_state(&mut conn, state);
+    let t1 = crate::verif::mk_instant(52, 0).unwrap();
+    conn.timers.set(Timer::Idle, t1);
+    conn.timers.set(Timer::Close, t1);
+    while conn.endpoint_events.pop_front().is_some() {}
+    conn.kill(ConnectionError::TimedOut);
+    assert!(conn.state.is_drained());
+    for &t in &Timer::VALUES {
+        assert!(conn.timers.get(t).is_none(), "timer armed on a drained connection");
+    }
+    assert!(conn.endpoint_events.len() == 1 && matches!(conn.endpoint_events[0], EndpointEventInner::Drained), "Drained not reported exactly once");
+    1
+}
